@@ -57,6 +57,32 @@ pub fn run(rep: &mut Report, thorough: bool) {
             });
         }
     }
+    // histories: the SYN rule holds whatever happened before (BFS over the real connection table
+    // with SYN probes, valid data, FIN|ACK, RST on two flows; every transition judged)
+    {
+        use crate::bfs::{self, BfsOpts, Event};
+        use crate::props::c07::{setup, tcp_events};
+        match setup(cfg_plain(), 2) {
+            Ok(s) => {
+                let mut events: Vec<Event> = Vec::new();
+                for (tagf, f) in &s.flows {
+                    let c = s.cookies[&key_of(f)];
+                    for e in tcp_events(tagf, f, c, false) {
+                        let n = e.name.split_once(':').map(|x| x.1.to_string()).unwrap_or_default();
+                        if ["syn", "data-http-ack=cookie+1", "data-Z", "data-empty", "finack-0x3e8-", "rst", "ack", "data-http-half1"].iter().any(|k| n.starts_with(k)) {
+                            events.push(e);
+                        }
+                    }
+                    events.push(Event { name: format!("{}:syn-psh-urg-ece", tagf), frame: f.tcp(0xffffffff, 5, F_SYN | F_PSH | F_URG | F_ECE, b"x"), flow: Some(key_of(f)), is_data: false });
+                    events.push(Event { name: format!("{}:syn-cwr-ece", tagf), frame: f.tcp(9, 0, F_SYN | F_CWR | F_ECE, b""), flow: Some(key_of(f)), is_data: false });
+                    events.push(Event { name: format!("{}:syn-ack", tagf), frame: f.tcp(9, c.wrapping_add(1), F_SYN | F_ACK, b""), flow: Some(key_of(f)), is_data: false });
+                }
+                let o = BfsOpts { stage: "bfs-syn-after-history".into(), max_depth: if thorough { 6 } else { 4 }, max_states: 20000, abstract_acc: true, differential: false };
+                bfs::bfs(&s.cfg, &events, &s.cookies, &o, rep);
+            }
+            Err(e) => rep.sink.machinery_errors.push(e),
+        }
+    }
     // cookie function analysis (learned cookies only)
     for (ci, cfg) in [cfg_plain(), cfg_plain().with_key(keys[1])].iter().enumerate() {
         let tag = format!("key{}", ci);
